@@ -7,10 +7,11 @@ PID = "C06"
 THEOREMS = ["flood_basic", "flood_forest", "flood_upper", "flood_attained", "seeds_char", "fill_idempotent", "us_points_back", "extract_min_spec", "gen_fill_depressions_eq"]
 RULE = ("all DEMs over {0,1,2,nodata} on shapes up to 2x3 / 3x2 (exhaustive), both connectivities, outlet modes 'edge', "
         "'min' and user cells; random integer DEMs (plateaus, nested depressions, nodata holes) to 8x8 (20x20 thorough) "
-        "through dem.fill_depressions (int32, float32 and float64 arrays holding integers) and pyflwdir.from_dem; "
+        "through dem.fill_depressions (integer, unsigned, float32 and float64 arrays holding integers or eighths, nodata values float32 "
+        "cannot hold, every negative max_depth) and pyflwdir.from_dem; general and close-valued float DEMs (oracle only); "
         "non-trivial = some cell is raised")
-ASSUMPTIONS = ["max_depth < 0 (unlimited fill); elevations are integers (exact in float32): with general floats the float32 "
-               "queue key and elevtn + (z0 - z1) deviate from the exact spill level by rounding (outside the model)"]
+ASSUMPTIONS = ["max_depth < 0 (unlimited fill) and no elv_max in the model; elevations are integers or eighths in the model cases; general "
+               "float DEMs (k = 600) are decided by the oracle alone: the filled level must be exactly an input value (minimax level)"]
 
 
 def cases(tier, rng):
